@@ -144,11 +144,23 @@ class Guards:
                     out.append(("err", x))
                 elif vals == [1]:
                     out.append(("ok", x))
+                # opt.ok_or(e) is Ok exactly when opt is Some: the same fact a `match opt` would establish
+                if (x[1] or "").endswith("Option::<T>::ok_or") or (x[1] or "").endswith("Option::<T>::ok_or_else"):
+                    for f in list(out):
+                        if f[0] in ("ok", "err") and f[1] is x and x[3]:
+                            out.append(("variant", strip_bb(x[3][0]), 1 if f[0] == "ok" else 0))
             else:
                 if not otherwise:
                     out.append(("variant", x, v))
                 else:
                     out.append(("notvariant", x, tuple(vals)))
+            return out
+        # a switch on an integer value (match n { K => .., _ => .. }) is a comparison with K
+        if self._is_int_expr(e):
+            if not otherwise:
+                out.append(("cmp", "Eq", e, ("const", v), True != neg))
+            elif len(vals) == 1:
+                out.append(("cmp", "Eq", e, ("const", vals[0]), False != neg))
             return out
         # boolean
         if not otherwise:
@@ -161,6 +173,22 @@ class Guards:
             return out
         out.append(("bool", e, truth != neg))
         return out
+
+    def _is_int_expr(self, e):
+        """value expression of integer (not bool) type, as far as it can be told from its leaves"""
+        fn = self.fn
+        if e[0] == "arg":
+            return fn.local_ty(e[1])["k"] in ("uint", "int")
+        if e[0] == "local":
+            return fn.local_ty(e[1])["k"] in ("uint", "int")
+        if e[0] == "place":
+            tys = set()
+            for (root, proj) in e[1]:
+                last = [x for x in proj if x[0] == "f"]
+                if not last:
+                    return False
+            return False
+        return False
 
     # ---- kills
     def _block_writes(self, bi):
